@@ -291,7 +291,7 @@ def run(ctx):
                             "again 0-2 times; async listener methods; a second instance of the same class without "
                             "listeners driven alongside; non-trivial = a name has >=2 providers or a listener is "
                             "attached after an event")
-    engine_check(ctx, PROFILE, 800, 20000, nontrivial, monitor=monitor, post=post, tag="C12s", mutate=mutate)
+    engine_check(ctx, PROFILE, 800, 20000, nontrivial, monitor=monitor, post=post, tag="C12s", mutate=mutate, share=0.62)
     cov1 = dict(ctx.coverage)
     engine_check(ctx, PROFILE_ASYNC, 300, 8000, nontrivial, monitor=monitor, post=post, tag="C12a", mutate=mutate)
     for k in ("evaluations", "distinct_nontrivial", "traces_validated_against_impl", "disagreements", "monitor_failures"):
